@@ -12461,3 +12461,274 @@ func init() {
 		r.WithAlias(map[string]string{"C10-R6": "C09-R21"}, func() { extraC10Loops(c, r) })
 	})
 }
+
+// ---------- C02-R18: the engines put nothing of their own into a relayed body ----------
+func init() { registerExtra("C02", extraC02NoEngineBytesInBody) }
+
+func extraC02NoEngineBytesInBody(c *Ctx, r *Report) {
+	r.Rule("C02-R18", "in the proxy engines no Write (or io.WriteString / fmt.Fprint*) on the client's ResponseWriter carries bytes the engine made up itself — a constant string or byte literal: what the client reads as the body of a proxied response is exactly what one backend attempt produced. A keep-alive comment, a padding line or a terminator written 'while the backend is silent' lands wherever the backend paused, also in the middle of an SSE data line or a JSON document", 0)
+	isRW := func(t types.Type) bool { return isNamed(t, "net/http", "ResponseWriter") }
+	constBytes := func(v ssa.Value) bool {
+		found := false
+		var walk func(v ssa.Value, d int)
+		walk = func(v ssa.Value, d int) {
+			if v == nil || d == 0 || found {
+				return
+			}
+			switch x := v.(type) {
+			case *ssa.Const:
+				if x.Value != nil && x.Value.Kind() == constant.String && constant.StringVal(x.Value) != "" {
+					found = true
+				}
+			case *ssa.Convert:
+				walk(x.X, d-1)
+			case *ssa.ChangeType:
+				walk(x.X, d-1)
+			case *ssa.MakeInterface:
+				walk(x.X, d-1)
+			case *ssa.Phi:
+				for _, e := range x.Edges {
+					walk(e, d-1)
+				}
+			case *ssa.UnOp:
+				// a package-level byte slice / string of the repository (`var keepAlive = []byte(": keep-alive\n\n")`)
+				if g, ok := x.X.(*ssa.Global); ok && x.Op == token.MUL && g.Pkg != nil && strings.HasPrefix(g.Pkg.Pkg.Path(), modPath) {
+					found = true
+				}
+			case *ssa.Slice:
+				// a slice over a literal array whose elements are constants
+				if al, ok := x.X.(*ssa.Alloc); ok {
+					allK, any := true, false
+					for _, ref := range *al.Referrers() {
+						if ia, ok := ref.(*ssa.IndexAddr); ok {
+							for _, r2 := range *ia.Referrers() {
+								if st, ok := r2.(*ssa.Store); ok {
+									any = true
+									if _, isK := st.Val.(*ssa.Const); !isK {
+										allK = false
+									}
+								}
+							}
+						}
+					}
+					if any && allK {
+						found = true
+					}
+				}
+			}
+		}
+		walk(v, 4)
+		return found
+	}
+	n := 0
+	for _, f := range c.Funcs {
+		pp := fnPkgPath(f)
+		if !(strings.Contains(pp, "/adapter/proxy/sherpa") || strings.Contains(pp, "/adapter/proxy/olla") || strings.Contains(pp, "/adapter/proxy/core")) || f.Blocks == nil {
+			continue
+		}
+		eachInstr(f, func(in ssa.Instruction) {
+			cc := getCall(in)
+			if cc == nil {
+				return
+			}
+			var payload []ssa.Value
+			switch {
+			case cc.IsInvoke() && cc.Method.Name() == "Write" && isRW(cc.Value.Type()) && len(cc.Args) == 1:
+				payload = cc.Args
+			default:
+				ci := describeCall(cc)
+				if (ci.Pkg == "io" && ci.Name == "WriteString") || (ci.Pkg == "fmt" && strings.HasPrefix(ci.Name, "Fprint")) {
+					if len(cc.Args) >= 2 {
+						w := cc.Args[0]
+						if mi, ok := w.(*ssa.MakeInterface); ok {
+							w = mi.X
+						}
+						if isRW(w.Type()) {
+							payload = cc.Args[1:]
+						}
+					}
+				}
+			}
+			for _, p := range payload {
+				if constBytes(p) {
+					n++
+					r.Bad("C02-R18", fname(f)+":engine-made-bytes-in-body", in.Pos(), "the engine writes bytes of its own (a constant) to the client's response: they are spliced into the backend's body wherever the backend happened to pause, so the client no longer receives exactly what the backend sent")
+				}
+			}
+		})
+	}
+	if n == 0 {
+		r.Triv("C02-R18", "engine-made-body-bytes", token.NoPos, "no constant bytes are written to the client's response by the engines")
+	}
+	addMutants(Mutant{Prop: "C02", Name: "keep-alive-comment-written-into-the-stream", File: "internal/adapter/proxy/sherpa/service_streaming.go", Rule: "C02-R18",
+		Old: "	if !state.clientDisconnected {\n		written, writeErr := w.Write(data)\n", New: "	if !state.clientDisconnected {\n		if len(data) == 0 {\n			_, _ = w.Write([]byte(\": keep-alive\\n\\n\"))\n		}\n		written, writeErr := w.Write(data)\n"})
+}
+
+// ---------- C15-R11: the forwarded-header fill-ins are reached whatever happened to X-Forwarded-For ----------
+func init() { registerExtra("C15", extraC15ForwardedFillInsReached) }
+
+func extraC15ForwardedFillInsReached(c *Ctx, r *Report) {
+	r.Rule("C15-R11", "in the function of the proxy packages that adds X-Forwarded-Proto and X-Forwarded-Host to the upstream request, no path returns before both headers were dealt with (tested for presence on the inbound request, or set): an early exit that belongs to the X-Forwarded-For branch — 'no client address, nothing to add' — must not skip them", 2)
+	n := 0
+	for _, f := range c.Funcs {
+		if !strings.Contains(fnPkgPath(f), "/adapter/proxy") || f.Blocks == nil {
+			continue
+		}
+		for _, hdr := range []string{"X-Forwarded-Proto", "X-Forwarded-Host"} {
+			touches := func(in ssa.Instruction) bool {
+				if _, k, _, ok := headerCall(in, "Get", "Values", "Set", "Add"); ok {
+					if s, isK := constString(k); isK && strings.EqualFold(s, hdr) {
+						return true
+					}
+				}
+				if lk, ok := in.(*ssa.Lookup); ok {
+					if s, isK := constString(lk.Index); isK && strings.EqualFold(s, hdr) {
+						return true
+					}
+				}
+				return false
+			}
+			sets := false
+			eachInstr(f, func(in ssa.Instruction) {
+				if _, k, _, ok := headerCall(in, "Set", "Add"); ok {
+					if s, isK := constString(k); isK && strings.EqualFold(s, hdr) {
+						sets = true
+					}
+				}
+			})
+			if !sets {
+				continue
+			}
+			n++
+			key := fname(f) + ":" + hdr + "-always-considered"
+			var bad *ssa.Return
+			for _, ret := range returnsOf(f) {
+				if reachFromEntryAvoiding(f, ret, touches) {
+					bad = ret
+				}
+			}
+			if bad != nil {
+				r.Bad("C15-R11", key, retPos(f, bad), "the function can return before it looked at "+hdr+": on that path Olla does not add the header although the client sent none (an exit meant for the X-Forwarded-For branch leaves the whole function)")
+			} else {
+				r.OK("C15-R11", key, f.Pos(), "every path considers "+hdr)
+			}
+		}
+	}
+	if n == 0 {
+		r.Undecided("C15-R11", "forwarded-fill-ins", token.NoPos, "no function of the proxy packages sets X-Forwarded-Proto / X-Forwarded-Host")
+	}
+	addMutants(Mutant{Prop: "C15", Name: "no-client-ip-leaves-the-function", File: "internal/adapter/proxy/core/common.go", Rule: "C15-R11",
+		Old: "func updateForwardedHeaders(proxyReq, originalReq *http.Request) {\n", New: "func updateForwardedHeaders(proxyReq, originalReq *http.Request) {\n	if extractClientIP(originalReq) == \"\" {\n		return\n	}\n"})
+}
+
+// ---------- C17-R15: what is handed to the router as security adapters really is one ----------
+func init() { registerExtra("C17", extraC17AdaptersImplementProvider) }
+
+func extraC17AdaptersImplementProvider(c *Ctx, r *Report) {
+	r.Rule("C17-R15", "every value the application passes to RouteRegistry.WireUpWithSecurityChain has a concrete type that implements the interface the router asserts it to (the provider of the chain and rate-limit middlewares): the parameter is an empty interface and a failed assertion falls back, silently, to wiring every route — the proxy routes included — without any security middleware. Renaming a method of the adapter type ('it only logs, call it that') is enough", 1)
+	f := c.Fn("internal/router", "(*RouteRegistry).WireUpWithSecurityChain")
+	if f == nil {
+		r.Unresolved("C17-R15", "router.(*RouteRegistry).WireUpWithSecurityChain")
+		return
+	}
+	var want *types.Interface
+	var param *ssa.Parameter
+	eachInstr(f, func(in ssa.Instruction) {
+		ta, ok := in.(*ssa.TypeAssert)
+		if !ok {
+			return
+		}
+		p, isP := ta.X.(*ssa.Parameter)
+		it, isI := ta.AssertedType.Underlying().(*types.Interface)
+		if isP && isI && it.NumMethods() > 0 {
+			want, param = it, p
+		}
+	})
+	if want == nil {
+		r.Undecided("C17-R15", fname(f)+":asserted-interface", f.Pos(), "no assertion of the adapters parameter to an interface found")
+		return
+	}
+	idx := -1
+	for i, p := range f.Params {
+		if p == param {
+			idx = i
+		}
+	}
+	n := 0
+	for _, g := range c.Funcs {
+		if !c.inRepo(g) {
+			continue
+		}
+		eachInstr(g, func(in ssa.Instruction) {
+			cc := getCall(in)
+			if cc == nil || cc.StaticCallee() != f || idx < 0 || idx >= len(cc.Args) {
+				return
+			}
+			a := cc.Args[idx]
+			var concrete types.Type
+			switch x := a.(type) {
+			case *ssa.MakeInterface:
+				concrete = x.X.Type()
+			default:
+				if _, isIface := a.Type().Underlying().(*types.Interface); !isIface {
+					concrete = a.Type()
+				}
+			}
+			n++
+			key := fname(g) + ":adapters-implement-provider"
+			switch {
+			case concrete == nil:
+				r.Triv("C17-R15", key, in.Pos(), "an interface value of unknown dynamic type is passed on")
+			case types.Implements(concrete, want) || types.Implements(types.NewPointer(concrete), want):
+				r.OK("C17-R15", key, in.Pos(), types.TypeString(concrete, nil)+" implements the asserted provider interface")
+			default:
+				r.Bad("C17-R15", key, in.Pos(), types.TypeString(concrete, nil)+" does not implement the interface WireUpWithSecurityChain asserts its argument to: the assertion fails, the router falls back to plain wiring, and no route — proxy routes included — gets the rate limiter, the size check or the body limiter")
+			}
+		})
+	}
+	if n == 0 {
+		r.Undecided("C17-R15", "wire-up-calls", token.NoPos, "no call of WireUpWithSecurityChain found")
+	}
+	addMutants(Mutant{Prop: "C17", Name: "adapter-method-renamed", File: "internal/app/handlers/application.go", Rule: "C17-R15",
+		Old: "func (s *SecurityAdapters) CreateRateLimitMiddleware() func(http.Handler) http.Handler {", New: "func (s *SecurityAdapters) CreateLoggingMiddleware() func(http.Handler) http.Handler {"})
+}
+
+// ---------- C17-R16: per-client buckets are dropped one at a time, for being idle ----------
+func init() { registerExtra("C17", extraC17NoBulkBucketDrop) }
+
+func extraC17NoBulkBucketDrop(c *Ctx, r *Report) {
+	r.Rule("C17-R16", "the rate limiter never empties its table of per-client buckets wholesale (no Clear on it, no replacement by a new map): a client's spent bucket is the only memory of what it has been admitted, so a 'memory guard' that clears the table when it holds many clients hands every client — the one that just exhausted its burst included — a full burst again, whenever enough OTHER addresses were seen", 0)
+	n := 0
+	for _, f := range c.Funcs {
+		if !strings.Contains(fnPkgPath(f), "/adapter/security") || f.Blocks == nil {
+			continue
+		}
+		if strings.HasPrefix(topParent(f).Name(), "New") || topParent(f).Name() == "Stop" || topParent(f).Name() == "Shutdown" {
+			continue
+		}
+		eachInstr(f, func(in ssa.Instruction) {
+			bulk := false
+			if cc := getCall(in); cc != nil && len(cc.Args) > 0 {
+				ci := describeCall(cc)
+				if (ci.Name == "Clear") && mentionsField(cc.Args[0], "internal/adapter/security", "RateLimitValidator", "ipLimiters", 3) {
+					bulk = true
+				}
+				if b, ok := cc.Value.(*ssa.Builtin); ok && b.Name() == "clear" && mentionsField(cc.Args[0], "internal/adapter/security", "RateLimitValidator", "ipLimiters", 3) {
+					bulk = true
+				}
+			}
+			if st, ok := in.(*ssa.Store); ok && isField(st.Addr, "internal/adapter/security", "RateLimitValidator", "ipLimiters") {
+				bulk = true
+			}
+			if bulk {
+				n++
+				r.Bad("C17-R16", fname(f)+":bucket-table-emptied", in.Pos(), "the table of per-client token buckets is emptied (or replaced) as a whole: every client's accounting starts over, so a client that has used up its burst is admitted a fresh burst at once — the bound burst + rate×t no longer holds for it")
+			}
+		})
+	}
+	if n == 0 {
+		r.Triv("C17-R16", "bulk-bucket-drops", token.NoPos, "the bucket table is never emptied as a whole outside construction and shutdown")
+	}
+	addMutants(Mutant{Prop: "C17", Name: "bucket-table-cleared-when-large", File: "internal/adapter/security/request_rate_limit.go", Rule: "C17-R16",
+		Old: "func (rl *RateLimitValidator) getOrCreateLimiter(key string, limit int) *ipLimiterInfo {\n", New: "func (rl *RateLimitValidator) getOrCreateLimiter(key string, limit int) *ipLimiterInfo {\n	if rl.ipLimiters.Size() >= 10000 {\n		rl.ipLimiters.Clear()\n	}\n"})
+}
